@@ -95,7 +95,21 @@ def projection(res, logs):
 
 
 # ------------------------------------------------------------------ C15
-KILL_POINTS = ["before_run", "after_connect", "mid_output", "between_groups", "after_last_output"]
+KILL_POINTS = ["before_run", "during_attach", "after_connect", "mid_output", "between_groups", "after_last_output"]
+
+
+def established(port):
+    """A connection to the listener's port is ESTABLISHED (state 01) on the client side."""
+    want = ":%04X" % port
+    try:
+        with open("/proc/net/tcp") as f:
+            for line in f.readlines()[1:]:
+                parts = line.split()
+                if parts[2].endswith(want) and parts[3] == "01":
+                    return True
+    except OSError:
+        pass
+    return False
 
 
 def c15_scenario(bins, idx, kill_point, flt, rng):
@@ -128,7 +142,14 @@ def c15_scenario(bins, idx, kill_point, flt, rng):
             go = fx.marker("%s-go" % way)
             if way == "killed" and kill_point == "before_run":
                 lst.kill()
+            if way == "killed" and kill_point == "during_attach":
+                os.killpg(lst.p.pid, signal.SIGSTOP)      # the listener accepts nothing: the handshake cannot complete
             p = fx.spawn(["run", "-c", "build"])
+            if way == "killed" and kill_point == "during_attach":
+                deadline = time.time() + 10
+                while not established(fx.log_port) and time.time() < deadline and p.poll() is None:
+                    time.sleep(0.002)
+                lst.kill()
             if way == "killed" and kill_point in ("after_connect", "mid_output"):
                 m = fx.marker("%s-printed1-app" % way)
                 deadline = time.time() + 20
@@ -171,16 +192,21 @@ def c15_scenario(bins, idx, kill_point, flt, rng):
 
 
 # ------------------------------------------------------------------ C20
-def c20_scenario(bins, idx, nt, flt, rng):
+def c20_scenario(bins, idx, nt, flt, rng, heavy=False):
     names = runlib.NAMES
     targets = [{"path": names[i % len(names)] + ("" if i < len(names) else str(i))} for i in range(nt)]
     tnames = [t["path"] for t in targets]
-    cmds = ["build"] if rng.random() < 0.6 else ["build", "test"]
+    cmds = ["build"] if (rng.random() < 0.4 and not flt.get("commands")) else ["build", "test"]
     fx = fixture.Fixture(bins, targets)
     try:
         for t in tnames:
             for c in cmds:
                 steps = []
+                if heavy:
+                    # thousands of lines per flush on both streams at once: one flush spans many socket writes
+                    n = rng.choice([600, 1500, 4000])
+                    for s in ("stdout", "stderr"):
+                        steps.append({"op": "out", "stream": s, "text": "".join("%s %s %s heavy %d\n" % (t, c, s, i) for i in range(n))})
                 for burst in range(rng.randint(1, 3)):
                     for i in range(rng.randint(1, 6)):
                         steps.append({"op": "out", "text": "%s %s out b%d l%d %s\n" % (t, c, burst, i, "x" * rng.randint(0, 60))})
@@ -229,6 +255,7 @@ def c20_scenario(bins, idx, nt, flt, rng):
 
 
 FILTERS = [{"stdout": True, "stderr": True}, {"stdout": True}, {"stderr": True},
+           {"stdout": True, "stderr": True, "commands": ["build"], "targets": [0, 1]},
            {"stdout": True, "stderr": True, "targets": [0]}, {"stdout": True, "targets": [1, 2]},
            {"stdout": True, "stderr": True, "commands": ["build"]}, {"stderr": True, "commands": ["test"], "targets": [0, 1]}]
 
@@ -266,7 +293,7 @@ def run(pid, tier):
         rr = random.Random(chk.seed * 53 + j[1])
         if j[0] == "c15":
             return c15_scenario(bins, j[1], j[2], j[3], rr)
-        return c20_scenario(bins, j[1], j[2], j[3], rr)
+        return c20_scenario(bins, j[1], j[2], j[3], rr, heavy=(j[1] % 4 == 1))
     with ThreadPoolExecutor(max_workers=8) as ex:
         recs = list(ex.map(one, jobs))
     clean = []
